@@ -123,11 +123,109 @@ class Normaliser:
         self.inlined.append(h.name)
         return out + body
 
+    # ---------------------------------------------------------------- FUSE (generator consumed by a for loop)
+    def _fuse(self, loop: ast.For, h: ast.FunctionDef, depth) -> Optional[List[ast.stmt]]:
+        """for T in self.g(a): BODY   ->   g's body with every `yield E` replaced by `T = E; BODY`
+        (g only yields -- no send(), no return value, no try/finally around a yield; BODY has no break / return, so the generator always runs to its end)"""
+        call = loop.iter
+        if loop.orelse or depth > self.max_inline or h.args.vararg or h.args.kwarg:
+            return None
+        hb = [s for s in h.body if not (isinstance(s, ast.Expr) and isinstance(s.value, ast.Constant))]
+        for n in ast.walk(ast.Module(body=hb, type_ignores=[])):
+            if isinstance(n, (ast.YieldFrom, ast.FunctionDef, ast.Lambda, ast.ClassDef, ast.Try, ast.With, ast.Global, ast.Nonlocal)):
+                return None
+            if isinstance(n, ast.Return) and n.value is not None:
+                return None
+            if isinstance(n, ast.Yield) and n.value is None:
+                return None
+        for n in ast.walk(ast.Module(body=hb, type_ignores=[])):
+            if isinstance(n, ast.Yield):
+                pass
+        # yields must be statements of their own
+        ystmts = [n for n in ast.walk(ast.Module(body=hb, type_ignores=[])) if isinstance(n, ast.Expr) and isinstance(n.value, ast.Yield)]
+        nyield = sum(1 for n in ast.walk(ast.Module(body=hb, type_ignores=[])) if isinstance(n, ast.Yield))
+        if nyield != len(ystmts) or not ystmts:
+            return None
+        for n in ast.walk(ast.Module(body=loop.body, type_ignores=[])):
+            if isinstance(n, (ast.Break, ast.Return, ast.Yield, ast.YieldFrom)):
+                return None
+        pos = [a.arg for a in h.args.posonlyargs + h.args.args]
+        keep = {}
+        is_method = isinstance(call.func, ast.Attribute) and isinstance(call.func.value, ast.Name) and call.func.value.id in ("self", "cls")
+        if is_method and "staticmethod" not in {ast.unparse(d) for d in h.decorator_list} and pos:
+            keep[pos[0]] = call.func.value.id
+            pos = pos[1:]
+        if any(isinstance(a, ast.Starred) for a in call.args) or any(k.arg is None for k in call.keywords) or len(call.args) > len(pos):
+            return None
+        params = pos + [a.arg for a in h.args.kwonlyargs]
+        bound = dict(zip(pos, call.args))
+        for k in call.keywords:
+            if k.arg not in params or k.arg in bound:
+                return None
+            bound[k.arg] = k.value
+        defaults = dict(zip(pos[len(pos) - len(h.args.defaults):], h.args.defaults)) if h.args.defaults else {}
+        defaults.update({a.arg: d for a, d in zip(h.args.kwonlyargs, h.args.kw_defaults) if d is not None})
+        self.k += 1
+        pre = f"{h.name}${self.k}$"
+        local = set(params)
+        for n in ast.walk(h):
+            if isinstance(n, ast.Name) and isinstance(n.ctx, ast.Store):
+                local.add(n.id)
+        # a parameter that is handed the caller's variable of the same name keeps its name (no copy needed: the generator does not assign it)
+        assigned_in_h = {n.id for n in ast.walk(h) if isinstance(n, ast.Name) and isinstance(n.ctx, ast.Store)}
+        same = {p_ for p_ in params if isinstance(bound.get(p_), ast.Name) and bound[p_].id == p_ and p_ not in assigned_in_h}
+        out: List[ast.stmt] = []
+        for p_ in params:
+            if p_ in same:
+                continue
+            v = bound.get(p_, defaults.get(p_))
+            if v is None:
+                return None
+            out.append(ast.Assign([ast.Name(pre + p_, ast.Store())], copy.deepcopy(v), lineno=loop.lineno))
+        body = copy.deepcopy(hb)
+
+        def rename(node):
+            for n in ast.walk(node):
+                if isinstance(n, ast.Name):
+                    if n.id in keep:
+                        n.id = keep[n.id]
+                    elif n.id in local and n.id not in same:
+                        n.id = pre + n.id
+
+        def subst(block):
+            res = []
+            for st in block:
+                if isinstance(st, ast.Expr) and isinstance(st.value, ast.Yield):
+                    res.append(ast.Assign([copy.deepcopy(loop.target)], st.value.value, lineno=loop.lineno))
+                    res.extend(copy.deepcopy(loop.body))
+                    continue
+                for fld in ("body", "orelse"):
+                    if hasattr(st, fld) and isinstance(getattr(st, fld), list):
+                        setattr(st, fld, subst(getattr(st, fld)))
+                res.append(st)
+            return res
+        for st in body:
+            rename(st)
+        body = subst(body)
+        if body and isinstance(body[-1], ast.Return):
+            body.pop()
+        if any(isinstance(n, ast.Return) for st in body for n in ast.walk(st)):
+            return None                           # an early bare return in the generator: not straight fusion
+        self.inlined.append(h.name)
+        return out + body
+
     def inline_block(self, stmts, depth=0):
         if self.resolve_call is None:
             return stmts
         out = []
         for s in stmts:
+            if isinstance(s, ast.For) and isinstance(s.iter, ast.Call):
+                h = self.resolve_call(s.iter)
+                if h is not None and any(isinstance(n, ast.Yield) for n in ast.walk(h)):
+                    fused = self._fuse(s, h, depth)
+                    if fused is not None:
+                        out.extend(self.inline_block(fused, depth + 1))
+                        continue
             call, target = None, None
             if isinstance(s, ast.Assign) and isinstance(s.value, ast.Call):
                 call, target = s.value, s.targets
@@ -332,7 +430,17 @@ class Normaliser:
         return out
 
 
-def class_resolver(mod: ast.Module, cls: Optional[ast.ClassDef] = None):
+def inline_only(fn: ast.FunctionDef, resolve_call) -> ast.FunctionDef:
+    """INLINE + FUSE only (for analyses that do their own control-flow reasoning)"""
+    nz = Normaliser(resolve_call)
+    out = copy.deepcopy(fn)
+    out.body = nz.inline_block([s for s in out.body if not (isinstance(s, ast.Expr) and isinstance(s.value, ast.Constant) and isinstance(s.value.value, str))])
+    ast.fix_missing_locations(out)
+    out._inlined = list(nz.inlined)
+    return out
+
+
+def class_resolver(mod: ast.Module, cls: Optional[ast.ClassDef] = None, exclude=()):
     """resolve self.m(...) / cls.m(...) in `cls` (and module-level base classes) and f(...) to module-level functions"""
     classes = {c.name: c for c in mod.body if isinstance(c, ast.ClassDef)}
     funcs = {f.name: f for f in mod.body if isinstance(f, ast.FunctionDef)}
@@ -352,8 +460,8 @@ def class_resolver(mod: ast.Module, cls: Optional[ast.ClassDef] = None):
     def resolve(call: ast.Call):
         f = call.func
         if isinstance(f, ast.Attribute) and isinstance(f.value, ast.Name) and f.value.id in ("self", "cls"):
-            return ms.get(f.attr)
+            return None if f.attr in exclude else ms.get(f.attr)
         if isinstance(f, ast.Name):
-            return funcs.get(f.id)
+            return None if f.id in exclude else funcs.get(f.id)
         return None
     return resolve
